@@ -520,6 +520,11 @@ def gen_facts(node: Node, aliases) -> list[tuple[str, bool]]:
     if not isinstance(t, (ast.Name, ast.Attribute)) or contains(t, (ast.Call, ast.Subscript)):
         return out
     key = ast.unparse(subst(t, {}))
+    if isinstance(v, ast.UnaryOp) and isinstance(v.op, ast.USub) and isinstance(v.operand, ast.Constant) and isinstance(v.operand.value, int) \
+            and not isinstance(v.operand.value, bool):
+        v = ast.Constant(-v.operand.value)
+    if isinstance(v, ast.Constant) and isinstance(v.value, int) and not isinstance(v.value, bool):
+        out += [(f"{key} < 0", v.value < 0), (f"0 < {key}", v.value > 0)]       # sign of an integer constant
     if isinstance(v, ast.Constant):
         if v.value is None:
             out += [(key + " is None", True), (key, False)]
